@@ -26,6 +26,9 @@ func dumpScalar(sb *strings.Builder, v interface{}) error {
 	case int:
 		fmt.Fprintf(sb, " i %d", t)
 	case float64:
+		if t != t {
+			return fmt.Errorf("NaN value")
+		}
 		fmt.Fprintf(sb, " f %s", X(fmtFloat(t)))
 	default:
 		return fmt.Errorf("unsupported scalar %T", v)
@@ -69,6 +72,9 @@ func dumpVal(sb *strings.Builder, v interface{}) error {
 		sort.Slice(ms, func(i, j int) bool { return ms[i].Value < ms[j].Value })
 		fmt.Fprintf(sb, " Z %d", len(ms))
 		for _, m := range ms {
+			if m.Score != m.Score {
+				return fmt.Errorf("NaN value")
+			}
 			fmt.Fprintf(sb, " %s %s", X(string(m.Value)), X(fmtFloat(float64(m.Score))))
 		}
 	default:
